@@ -134,7 +134,8 @@ def run(worker, nworkers, limit=None):
     sh(["rsync", "-a", "--delete", "--exclude", "target", "/repo/", repo + "/"])
     sh(["rsync", "-a", "--delete", "--exclude", ".cache", "--exclude", "replays", "--exclude", ".git", "/verif/", verif + "/"])
     cargo = os.path.join(verif, "harness", "Cargo.toml")
-    open(cargo, "w").write(open(cargo).read().replace('path = "/repo', f'path = "{repo}'))
+    txt = open(cargo).read().replace('path = "/repo', f'path = "{repo}')
+    open(cargo, "w").write(txt)
     env = dict(os.environ, CARGO_NET_OFFLINE="true", NTV_REPO=repo)
     resf = open(os.path.join(OUT, f"results_{worker}.jsonl"), "a")
     done = set()
